@@ -3,11 +3,18 @@
 #define GHOST_H
 #include "mpi_model.h"
 #include "vh.h"
-#define GHOST_ASSIGNS \
-    g_type_live, g_comm_live, g_info_live, g_file_live, g_coll_n, __CPROVER_object_whole(g_coll_kind), \
-    g_io_n, __CPROVER_object_whole(g_io_kind), __CPROVER_object_whole(g_io_off), __CPROVER_object_whole(g_io_count), \
-    __CPROVER_object_whole(g_io_buf), __CPROVER_object_whole(g_io_type), __CPROVER_object_whole(g_io_bytes), g_nwrites, g_io_failed, g_view_n, \
+#define GH_TYPES g_type_live, g_type_next, __CPROVER_object_whole(g_tsize)
+#define GH_LIVE g_comm_live, g_info_live, g_file_live
+#define GH_COLL g_coll_n, __CPROVER_object_whole(g_coll_kind)
+#define GH_IO g_io_n, __CPROVER_object_whole(g_io_kind), __CPROVER_object_whole(g_io_off), __CPROVER_object_whole(g_io_count), \
+    __CPROVER_object_whole(g_io_buf), __CPROVER_object_whole(g_io_type), __CPROVER_object_whole(g_io_bytes), g_nwrites, g_io_failed, \
     g_last_io_bytes, g_last_got
+#define GH_VIEW g_view_n
+#define GHOST_ASSIGNS GH_TYPES, GH_LIVE, GH_COLL, GH_IO, GH_VIEW
+/* frame facts a replaced contract has to restate for the ghost groups it lists but does not change */
+#define GH_TYPES_SAME (g_type_live == __CPROVER_old(g_type_live))
+#define GH_COLL_SAME (g_coll_n == __CPROVER_old(g_coll_n))
+#define GH_IO_SAME (g_io_n == __CPROVER_old(g_io_n) && g_nwrites == __CPROVER_old(g_nwrites) && g_io_failed == __CPROVER_old(g_io_failed))
 
 /* harness side: arbitrary process position, one injected failure at an arbitrary data-transfer
  * call with an arbitrary non-success code and an arbitrary class out of the modelled list */
